@@ -22,7 +22,7 @@ ASSUMPTIONS = ["positive durations (statement's scope)", "source / sink / global
 def generate(seed, tier):
     rng = stream(seed, "c17")
     big = tier == "thorough" and rng.random() < 0.15
-    spec = gen_instance(rng, max_jobs=5 if big else 4, max_machines=5 if big else 4, max_ops=5 if big else 4, positive=True)
+    spec = gen_instance(rng, sparse_ids=0.03, large=0.008, max_jobs=5 if big else 4, max_machines=5 if big else 4, max_ops=5 if big else 4, positive=True)
     names = ["dominated_operations"] if rng.random() < 0.5 else []
     obs = []
     pre = rng.random()
@@ -44,7 +44,7 @@ def generate(seed, tier):
     r = rng.random()
     if r < 0.25:
         # a second, independent dispatcher + updater is alive in the same process and advanced alternately
-        spec2 = gen_instance(rng, max_jobs=4, max_machines=4, max_ops=4, positive=True)
+        spec2 = gen_instance(rng, sparse_ids=0.03, large=0.008, max_jobs=4, max_machines=4, max_ops=4, positive=True)
         cfg["second"] = {"instance": spec2, "filter": [], "filter_style": "callable", "observers_fixed": True,
                          "observers": [{"t": "residual", "builder": rng.choice(BUILDERS), "rm": True, "rj": True}]}
         cfg["second_seed"] = rng.randrange(1 << 30)
